@@ -199,3 +199,48 @@ neutral('C03', 'n-rename-local', 'wave_sim.py', 'overflows', 'n_ovf', count='all
 neutral('C03', 'n-capacity-guard-form', 'wave_sim.py', 'if z_cur < (z_cap - 1):  # enough space in z_mem?', 'if z_cur <= z_cap - 2:')
 
 MUTANTS = M
+
+# ------------------------------------------------------------------ C04
+mut('C04', 'delay-of-other-line', 'wave_sim.py', '            a = cbuf[a_mem + a_cur, sim] + delays[a_idx, a_cur & 1, z_val]\n            next_t', '            a = cbuf[a_mem + a_cur, sim] + delays[b_idx, a_cur & 1, z_val]\n            next_t', 'C04.provenance')
+mut('C04', 'epsilon-added', 'wave_sim.py', 'or (current_t - previous_t) > thresh  # -OR-', 'or (current_t - previous_t) > thresh + 0.001  # -OR-', 'C04.dim')
+mut('C04', 'literal-threshold', 'wave_sim.py', 'or (current_t - previous_t) > thresh  # -OR-', 'or (current_t - previous_t) > 0.05  # -OR-', 'C04.dim')
+mut('C04', 'store-previous', 'wave_sim.py', '                    cbuf[z_mem + z_cur, sim] = current_t\n', '                    cbuf[z_mem + z_cur, sim] = previous_t\n', 'C04.provenance')
+mut('C04', 'time-vs-literal', 'wave_sim.py', '                or next_t < current_t ', '                or next_t < 0 ', 'C04.dim')
+mut('C04', 'polarity-index-swapped', 'wave_sim.py', '            c = cbuf[c_mem + c_cur, sim] + delays[c_idx, c_cur & 1, z_val]\n            next_t', '            c = cbuf[c_mem + c_cur, sim] + delays[c_idx, z_val, c_cur & 1]\n            next_t', 'C04.provenance')
+mut('C04', 'thresh-as-time', 'wave_sim.py', '            thresh = delays[d_idx, d_cur & 1, z_val]\n', '            thresh = cbuf[d_mem + d_cur, sim]\n', ['C04.dim', 'C04.provenance'])
+mut('C04', 'min-drops-operand', 'wave_sim.py', '            d = cbuf[d_mem + d_cur, sim] + delays[d_idx, d_cur & 1, z_val]\n\n        current_t = min(a, b, c, d)', '            d = cbuf[d_mem + d_cur, sim] + delays[d_idx, d_cur & 1, z_val]\n\n        current_t = min(a, b, c)', 'C04.provenance')
+mut('C04', 'eat-includes-tmin', 'wave_sim.py', '        if t <= TMIN: continue\n        if s_sqrt2 > 0:\n            acc += m * (1 + math.erf((t - time) / s_sqrt2))\n        eat = min(eat, t)\n        lst = max(lst, t)\n        tog += 1\n    if s_sqrt2 > 0:\n        if m < 0:\n            acc += 1\n        if acc >= 0.99:\n            val = 1\n        elif acc > 0.01:\n            seed = (seed << 4) + (vector << 20) + c_loc',
+    '        eat = min(eat, t)\n        if t <= TMIN: continue\n        if s_sqrt2 > 0:\n            acc += m * (1 + math.erf((t - time) / s_sqrt2))\n        lst = max(lst, t)\n        tog += 1\n    if s_sqrt2 > 0:\n        if m < 0:\n            acc += 1\n        if acc >= 0.99:\n            val = 1\n        elif acc > 0.01:\n            seed = (seed << 4) + (vector << 20) + c_loc', 'C04.capture')
+mut('C04', 'time-scaled', 'wave_sim.py', '        current_t = min(a, b, c, d)\n\n    # generate', '        current_t = min(a, b, c, d) * 1\n\n    # generate', ['C04.dim', 'C04.provenance'])
+neutral('C04', 'n-add-commuted', 'wave_sim.py', '    a = cbuf[a_mem + a_cur, sim] + delays[a_idx, 0, z_val]', '    a = delays[a_idx, 0, z_val] + cbuf[a_mem + a_cur, sim]')
+
+# ------------------------------------------------------------------ C13
+mut('C13', 'capture-nonstrict', 'wave_sim.py', '        if t < time:\n            val ^= 1\n        if t <= TMIN: continue\n        if s_sqrt2 > 0:\n            acc += m * (1 + math.erf((t - time) / s_sqrt2))\n        eat = min(eat, t)\n        lst = max(lst, t)\n        tog += 1\n    if s_sqrt2 > 0:\n        if m < 0:\n            acc += 1\n        if acc >= 0.99:\n            val = 1\n        elif acc > 0.01:\n            seed = (seed << 4) + (vector << 20) + (y << 1)',
+    '        if t <= time:\n            val ^= 1\n        if t <= TMIN: continue\n        if s_sqrt2 > 0:\n            acc += m * (1 + math.erf((t - time) / s_sqrt2))\n        eat = min(eat, t)\n        lst = max(lst, t)\n        tog += 1\n    if s_sqrt2 > 0:\n        if m < 0:\n            acc += 1\n        if acc >= 0.99:\n            val = 1\n        elif acc > 0.01:\n            seed = (seed << 4) + (vector << 20) + (y << 1)', 'C13.capture')
+mut('C13', 'ovl-any-terminator', 'wave_sim.py', '    for t in w:\n        if t >= TMAX:\n            if t == TMAX_OVL:\n                ovl = 1\n            break', '    for t in w:\n        if t >= TMAX:\n            ovl = 1\n            break', 'C13.capture')
+mut('C13', 'gpu-rows-swapped', 'wave_sim.py', '    s[4, y, vector] = eat\n    s[5, y, vector] = lst', '    s[5, y, vector] = eat\n    s[4, y, vector] = lst', 'C13.capture')
+mut('C13', 'overflow-not-counted', 'wave_sim.py', '                    overflows += 1\n', '', 'C13.overflow')
+mut('C13', 'terminator-min', 'wave_sim.py', 'cbuf[z_mem + z_cur, sim] = TMAX_OVL if overflows > 0 else max(a, b, c, d)', 'cbuf[z_mem + z_cur, sim] = TMAX_OVL if overflows > 0 else min(a, b, c, d)', 'C13.overflow')
+mut('C13', 'nrise-counts-tmin', 'wave_sim.py', 'nrise = max(0, (z_cur+1) // 2 - (cbuf[z_mem, sim] == TMIN))', 'nrise = max(0, (z_cur+1) // 2)', 'C13.count')
+mut('C13', 'nfall-ceil', 'wave_sim.py', '    nfall = z_cur // 2', '    nfall = (z_cur + 1) // 2', 'C13.count')
+mut('C13', 'weights-swapped', 'wave_sim.py', '                abuf[a_loc, sim] += nrise*a_wr + nfall*a_wf', '                abuf[a_loc, sim] += nrise*a_wf + nfall*a_wr', 'C13.accumulate')
+mut('C13', 'gpu-weight-columns', 'wave_sim.py', '    a_wr = op[7]\n    a_wf = op[8]\n\n    nrise, nfall = _wave_eval_gpu', '    a_wr = op[8]\n    a_wf = op[7]\n\n    nrise, nfall = _wave_eval_gpu', 'C13.accumulate')
+mut('C13', 'actrl-of-input-line', 'sim.py', 'ops.append((sp, o0_idx, i0_idx, i1_idx, i2_idx, i3_idx, *a_ctrl[o0_idx]))', 'ops.append((sp, o0_idx, i0_idx, i1_idx, i2_idx, i3_idx, *a_ctrl[i0_idx]))', 'C13.accumulate')
+mut('C13', 'acc-unguarded', 'wave_sim.py', '            if a_loc >= 0:\n                abuf[a_loc, sim] += nrise*a_wr + nfall*a_wf', '            if a_loc > 0:\n                abuf[a_loc, sim] += nrise*a_wr + nfall*a_wf', 'C13.accumulate')
+mut('C13', 'sd0-val-forced', 'wave_sim.py', '    else:\n        acc = val\n\n    return (w[0] <= TMIN)', '    else:\n        acc = val\n        val = final\n\n    return (w[0] <= TMIN)', 'C13.capture')
+neutral('C13', 'n-count-form', 'wave_sim.py', '    nfall = z_cur // 2', '    nfall = z_cur >> 1')
+
+# ------------------------------------------------------------------ C06
+mut('C06', 'gpu-capture-diverges', 'wave_sim.py', '        t = c[line + tidx, vector]\n        if t >= TMAX:\n            if t == TMAX_OVL:\n                ovl = 1\n            break\n        m = -m\n        final ^= 1\n        if t < time:', '        t = c[line + tidx, vector]\n        if t >= TMAX:\n            if t == TMAX_OVL:\n                ovl = 1\n            break\n        m = -m\n        final ^= 1\n        if t <= time:', ['C06.capture'])
+mut('C06', 'gpu-transfer-row', 'wave_sim.py', '    s[2, y, x] = s[8, y, x]', '    s[2, y, x] = s[7, y, x]', 'C06.transfer')
+mut('C06', 'lane-offset', 'wave_sim.py', '    a = cbuf[a_mem + a_cur, sim] + delays[a_idx, 0, z_val]', '    a = cbuf[a_mem + a_cur, sim ^ 1] + delays[a_idx, 0, z_val]', 'C06.lane')
+mut('C06', 'lane-in-row', 'wave_sim.py', '    z_mem = c_locs[z_idx]\n', '    z_mem = c_locs[z_idx] + (sim & 0)\n', 'C06.lane')
+mut('C06', 'dataset-mode1-global', 'wave_sim.py', '            delays = delays[simctl_int[0]]', '            delays = delays[seed]', 'C06.dataset')
+mut('C06', 'dataset-modulo', 'wave_sim.py', '            delays = delays[_rnd % len(delays)]', '            delays = delays[_rnd % (len(delays) - 1)]', 'C06.dataset')
+mut('C06', 'sims-restrict-gpu', 'wave_sim.py', "        sims = min(sims or self.sims, self.sims)\n        for op_start, op_stop in zip(self.level_starts, self.level_stops):\n            grid_dim", "        sims = self.sims\n        for op_start, op_stop in zip(self.level_starts, self.level_stops):\n            grid_dim", 'C06.kernel')
+mut('C06', 'creuse-extra-use', 'sim.py', '                cap = max(c_caps_min, c_caps[o_idx])\n', '                cap = max(c_caps_min, c_caps[o_idx]) if not c_reuse else c_caps_min\n', 'C06.options')
+mut('C06', 'mock-atomic-missing', '__init__.py', '    class atomic:\n        @staticmethod\n        def add(array, idx, value):\n            old = array[idx]\n            array[idx] += value\n            return old\n', '', 'C06.mockapi')
+mut('C06', 'gpu-separate-kernel', 'wave_sim.py', '_wave_eval_gpu = cuda.jit(_wave_eval, device=True)', '_wave_eval_gpu = cuda.jit(wave_eval_cpu, device=True)', 'C06.kernel')
+mut('C06', 'gpu-assign-threshold', 'wave_sim.py', '    else:\n        c[c_loc, x] = TMIN\n        c[c_loc+1, x] = TMAX\n    c[c_loc+2, x] = TMAX', '    else:\n        c[c_loc, x] = ttime\n        c[c_loc+1, x] = TMAX\n    c[c_loc+2, x] = TMAX', 'C06.stimulus')
+mut('C06', 'seed-lane-mix-cpu', 'wave_sim.py', '    w = c[c_loc:c_loc+c_len, vector]', '    w = c[c_loc:c_loc+c_len, vector - vector % 2]', 'C06.lane')
+neutral('C06', 'n-gpu-seed-term', 'wave_sim.py', '            seed = (seed << 4) + (vector << 20) + (y << 1)', '            seed = (seed << 4) + (vector << 20) + (y << 1)  # differs from cpu on purpose')
